@@ -15,6 +15,15 @@ EXPLANATION = (
 faulted = FT.faulted
 
 
+def two_faults(mode, prev, size, thr, chunk, io, f1, f2):
+    """C06.ff: download to a path with TWO faults (f1 < f2, both before the effect) at symbolic environment calls -
+    e.g. a write that fails and then a close that fails again while the cleanups run"""
+    c = H.run_download('path', size, thr, chunk, io, fault_at=f1, fault_at2=f2, prev=prev, subs=1)
+    if any(k == 'fs.remove' for _, k in c.env.all_delivered):
+        return '~'       # a failing remove is not among the faults the statement quantifies over
+    return FT.pick(FT.judge(c, 'down-path', size, thr, prev=prev), 'c06')
+
+
 def legacy(mode, prev, size, thr, chunk, fault_at, phase):
     c = L.download(size, thr, chunk, fault_at, phase, prev=prev)
     st, val = c.outcome
@@ -45,6 +54,18 @@ def legacy(mode, prev, size, thr, chunk, fault_at, phase):
 
 
 OBLIGATIONS = FT.fault_obligations('c06', 'C06', which=['down-path']) + [
+    dict(id='C06.ff', impl='two_faults', params='size: int, thr: int, chunk: int, io: int, f1: int, f2: int',
+         cases=[('single', False), ('single', True), ('ranged', False)],
+         pre=['0 <= f1 < f2 <= 24', '1 <= io', '1 <= chunk', '1 <= thr'],
+         splits=[['0 <= size < thr', 'size <= io', 'chunk == 1', 'f1 <= 6'], ['0 <= size < thr', 'size <= io', 'chunk == 1', 'f1 > 6'],
+                 ['thr <= size', 'chunk < size <= 2 * chunk', 'chunk <= io', 'f1 <= 6'],
+                 ['thr <= size', 'chunk < size <= 2 * chunk', 'chunk <= io', '6 < f1 <= 12'],
+                 ['thr <= size', 'chunk < size <= 2 * chunk', 'chunk <= io', '12 < f1']],
+         timeout=(170, 900),
+         bounds='download to a path (single GET of one chunk / 2 ranged parts), two faults at symbolic environment-call '
+                'indices f1 < f2 <= 24 (a failing remove is excluded)',
+         encodes=['TransferCoordinator._run_failure_cleanups / _run_callbacks', 'DownloadFilenameOutputManager cleanups',
+                  'IORenameFileTask'], assumptions=['S1', 'S2', 'identity-content data']),
     dict(id='C06.2', impl='legacy', params='size: int, thr: int, chunk: int, fault_at: int, phase: int',
          cases=[('single', False), ('single', True), ('ranged', False), ('ranged', True)],
          pre=['-1 <= fault_at <= 30', 'phase == 0'],
@@ -65,7 +86,7 @@ OBLIGATIONS = FT.fault_obligations('c06', 'C06', which=['down-path']) + [
          assumptions=['S1', 'S2', 'serial pool: no real thread interleaving']),
 ]
 # the single-GET cases only make sense for the 'single' label
-OBLIGATIONS[-2]['cases'] = [('single', False), ('single', True)]
+[o for o in OBLIGATIONS if o['id'] == 'C06.2'][0]['cases'] = [('single', False), ('single', True)]
 
 from harness.nsrun import ns_fault_obligations, nsfaulted  # noqa: E402
 OBLIGATIONS += ns_fault_obligations('c06', 'C06', ['down-path'])
